@@ -167,7 +167,7 @@ class Wire(Contract):
                 return sym.VClass('type(self)')
             return None
         return {'call_default': call_default, 'binop_default': binop_default, 'call': call_, 'op': op_, 'glob': glob,
-                'type_default': type_default, 'attr': attr_, 'builtin_map_partitions': map_partitions}
+                'type_default': type_default, 'attr': attr_, 'attr_default': attr_default, 'builtin_map_partitions': map_partitions}
 
     def unit(self, I, index):
         m = index.find_method(self.cls, self.method)       # the method the class resolves to (may be inherited)
@@ -315,3 +315,33 @@ for _C in _MORE:
     assert _C.__name__ not in globals(), _C.__name__
     globals()[_C.__name__] = _C
 ALL += _MORE
+
+
+# ---- round 7: re-wrapping of an exponentially weighted window, and column access of a streaming dataframe
+_EWM_REWRAP = ("call('type(self)', call('.__getitem__', self.root, key), n=self.n, value=self.value, with_state=self.with_state, "
+               "start=self.start, com=self.com, span=self.span, halflife=self.halflife, alpha=self.alpha)")
+
+
+class _WireGetattr(Wire):
+    """sdf.<column>: every access builds the selection from the frame AS IT IS NOW (sdf[...] = ... rebinds the stream of the
+    frame in place, so a selection handed out earlier describes the frame before the assignment)"""
+    def clauses(self):
+        return [Clause('C06.column_access_selects_from_the_current_frame', ['C06'], when='return', text='result == ' + self.expect,
+                       note='no cached accessor: the result is built from self at the time of the access'),
+                Clause('C06.unknown_attribute_is_an_AttributeError', ['C06'], when='raise', fn=lambda self_, I, o, fr: z3.BoolVal(o.value.cls == 'AttributeError'))]
+
+
+_R7 = [
+    W('EWM', '__getitem__', _EWM_REWRAP, ['key'], ['n', 'value', 'start', 'with_state', 'com', 'span', 'halflife', 'alpha', '_com'], ['root'],
+      props_=('C11', 'C12')),
+    W('_DataFrameMixin', '__getitem__', "call('map_partitions', glob('operator.getitem'), self, index)", ['index'],
+      concrete={'map_partitions': VBuiltin('map_partitions')}),
+]
+_g = W('_DataFrameMixin', '__getattr__', "call('map_partitions', glob('getattr'), self, key)", ['key'],
+       concrete={'map_partitions': VBuiltin('map_partitions'), 'columns': sym.VSeq(z3.Const('frame_columns', sym.SeqElemS), sym.K_ELEM)})
+_g = type(_g.__name__, (_WireGetattr,), {k: v for k, v in vars(_g).items() if not k.startswith('__') or k in ('__doc__',)})
+_R7.append(_g)
+for _C in _R7:
+    assert _C.__name__ not in globals(), _C.__name__
+    globals()[_C.__name__] = _C
+ALL += _R7
